@@ -291,4 +291,25 @@ class Statement(object):
             jump_amount = relative_address - start_address - self.code_pkg.size
             self.code_pkg.additional = NumericValue(jump_amount, size_hint=self.pcr_size_hint)
 
+        self.fit_operand_to_reserved_size()
+
+    def fit_operand_to_reserved_size(self):
+        """
+        Renders the operand bytes of an instruction in exactly the number of
+        bytes that the statement reserves for them (its size minus the opcode
+        and post-byte), using two's complement for negative values. Raises a
+        TranslationError if the value cannot be represented in that many bytes.
+        """
+        package = self.code_pkg
+        value = package.additional
+        if self.instruction.is_pseudo or not (value.is_numeric() or value.is_address()):
+            return
+        width = package.size - package.op_code.byte_len() - package.post_byte.byte_len()
+        if width < 1:
+            return
+        number = -value.int if value.is_negative() else value.int
+        if not -(1 << (8 * width - 1)) <= number < (1 << (8 * width)):
+            raise TranslationError("operand value does not fit in {} byte(s)".format(width), self)
+        package.additional = NumericValue(number % (1 << (8 * width)), size_hint=2 * width)
+
 # E N D   O F   F I L E #######################################################
